@@ -179,6 +179,36 @@ fn message_roles_ok(msg: &str, requested: &str, actual: &str) -> Option<bool> {
     Some(role_of(p_rq)? && !role_of(p_ac)?)
 }
 
+/// Does the text name this type: its ESRI name (letters compared without case and separators, C19's reading)
+/// followed by something that is not a letter or digit (so that "MultipointZ" does not name "Multipoint")?
+pub fn text_names(msg: &str, ty: Ty) -> bool {
+    let norm = |s: &str| -> Vec<char> { s.chars().filter(|c| c.is_alphanumeric()).flat_map(|c| c.to_lowercase()).collect() };
+    // keep separators as word boundaries: work on the lowercased text, skipping '_' ' ' '-' inside names
+    let text: Vec<char> = msg.chars().flat_map(|c| c.to_lowercase()).collect();
+    let name = norm(ty.name());
+    let mut i = 0;
+    while i < text.len() {
+        // try to match the name from i, allowing single separators between its letters
+        let (mut a, mut b) = (i, 0usize);
+        while a < text.len() && b < name.len() {
+            if text[a] == name[b] {
+                a += 1;
+                b += 1;
+            } else if b > 0 && matches!(text[a], '_' | '-' | ' ') {
+                a += 1;
+            } else {
+                break;
+            }
+        }
+        let starts_word = i == 0 || !text[i - 1].is_alphanumeric();
+        if b == name.len() && starts_word && (a >= text.len() || !text[a].is_alphanumeric()) {
+            return true;
+        }
+        i += 1;
+    }
+    false
+}
+
 fn mismatch(req: Ty, act: Ty) -> String {
     format!("MismatchShapeType(requested={},actual={})", req.code(), act.code())
 }
@@ -259,6 +289,10 @@ pub fn run(case: &Case) -> Vec<(String, String)> {
                 }
                 let msg: Option<String> = with_ty!(s, S => S::try_from(clone_shape(&lib)).err().map(|e| e.to_string()), unreachable!());
                 if let Some(m) = &msg {
+                    if !text_names(m, s) || !text_names(m, *ty) {
+                        out.push((format!("conversion-error-text-names:{}", tn), format!("{}::try_from(Shape::{}) says {:?}, which does not name both {} and {}", s.name(), tn, m, s.name(), tn)));
+                        break;
+                    }
                     if message_roles_ok(m, lib_ty(s).to_string().as_str(), lib_ty(*ty).to_string().as_str()) == Some(false) {
                         out.push((format!("conversion-error-text:{}", tn), format!("{}::try_from(Shape::{}) says {:?}: the requested type is {}, the actual one {}", s.name(), tn, m, s.name(), tn)));
                         break;
@@ -365,7 +399,8 @@ pub fn run(case: &Case) -> Vec<(String, String)> {
             // behind its record, so that the entries chain by their own lengths up to the end of the file
             let gaps = if *lie == 6 { vec![0, 2, 0, 2] } else if *fillers { vec![2, 0, 4, 2] } else { vec![0; 4] };
             let c14case = super::c14::Case { ty: *ty, n: 3, perm: perm.clone(), gaps, fill_byte: 0 };
-            let (shp, mut shx, _) = super::c14::build(&c14case);
+            // lie 7: nothing wrong with the index; the records are stored without their optional M block
+            let (shp, mut shx, _) = super::c14::build_m(&c14case, *lie != 7);
             let offs: Vec<i64> = (0..3).map(|i| i32::from_be_bytes(shx[100 + 8 * i..104 + 8 * i].try_into().unwrap()) as i64 * 2).collect();
             for i in 0..3 {
                 let o = 100 + 8 * i + 4;
@@ -685,6 +720,9 @@ pub fn check(tier: Tier) -> i32 {
                 if fillers && perm == vec![0usize, 1, 2] {
                     cases.push(Case::Indexed { ty, perm: perm.clone(), fillers, lie: 6 });
                 }
+                if ty.carries_m() {
+                    cases.push(Case::Indexed { ty, perm: perm.clone(), fillers, lie: 7 });
+                }
             }
         }
     }
@@ -738,7 +776,7 @@ pub fn check(tier: Tier) -> i32 {
             tier,
             level: "model_checking",
             engine: "E2 complete type matrix on the real reader / conversions; files by the library writer (13 types) and by RefCodec (null and mixed-type files)",
-            rule: "all 13 x 14 ordered (requested S, actual T) pairs x files of 1-2 (thorough 3) records over 3 structures, plus files whose last record has any other of the 14 types; every shape value of the C01 quick structure set for the identity / conversion clauses against all 13 target types; bulk conversion with the wrong element at every position of vectors of length 1-3 for all 13 x 13 pairs; hand-encoded 3-record files over {S, another type, null} for every S through ShapeReader::new / with_shx / with_shx with every index entry doubled / the complete Reader; 3-record files of every type located by a hand-made index (4 physical orders x fillers or not x the entries' length fields as they are, 2, 0, +1, -1, i32::MAX, or stretched over the filler behind each record so that they chain): typed against generic-then-converted for read, iteration, random access at every position, and the complete Reader's bulk reads from four states (in memory) and read_shapes / from_path (on disk); non-trivial = every case",
+            rule: "all 13 x 14 ordered (requested S, actual T) pairs x files of 1-2 (thorough 3) records over 3 structures, plus files whose last record has any other of the 14 types; every shape value of the C01 quick structure set for the identity / conversion clauses against all 13 target types; bulk conversion with the wrong element at every position of vectors of length 1-3 for all 13 x 13 pairs; hand-encoded 3-record files over {S, another type, null} for every S through ShapeReader::new / with_shx / with_shx with every index entry doubled / the complete Reader; 3-record files of every type located by a hand-made index (4 physical orders x fillers or not x the entries' length fields as they are, 2, 0, +1, -1, i32::MAX, or stretched over the filler behind each record so that they chain; also with the records stored without their optional M block): typed against generic-then-converted for read, iteration, random access at every position, and the complete Reader's bulk reads from four states (in memory) and read_shapes / from_path (on disk); non-trivial = every case",
             bounds: json!({"matrix": "13x14 complete", "cases": cases.len()}),
             exhaustive: true,
             assumptions: vec!["type names in errors are compared through their integer codes (Display names are C19's); the text of a mismatch error is only asked to put each type name behind the right one of the words 'request..' / 'actual', when it uses them".into()],
